@@ -435,6 +435,7 @@ def verdict(env, case, path, done, killed, states, label, mids):
 
 
 class Kills(SubCheck):
+    case_timeout_s = 1800  # one case is a whole batch of runs (every kill point / fault site of a history)
     name = 'kill_points'
 
     def examples(self, tier):
@@ -499,6 +500,7 @@ class Kills(SubCheck):
 
 
 class AsyncKills(SubCheck):
+    case_timeout_s = 1800  # one case is a whole batch of runs (every kill point / fault site of a history)
     """Supplementary, thorough tier only: the parent sends SIGKILL to a free-running child after a generated delay, so the
     kill can land inside one SQLite call (statement execution, WAL write, checkpoint).  Not schedulable, hence not
     replayable from its inputs: a failure's replay file records the workload and the delay, and the verdict is the same
